@@ -40,50 +40,8 @@ def QO(q, op, *a):
 
 
 # ----------------------------------------------------------------------------------------
-# concrete syntax
+# concrete syntax (hand_text: mccheck)
 # ----------------------------------------------------------------------------------------
-def hand_text(f, logic, rng):
-    """hand-written concrete syntax of tree f in the grammar of `logic` (alternative operator symbols, quoted atoms,
-    irregular spacing, optional outer parentheses); CTL needs a blank between quantifier and temporal operator"""
-    def sym(t):
-        if t == 'not':
-            return rng.choice(['not ', '~', '~ ', 'not  '])
-        if t == 'or':
-            return rng.choice([' or ', ' | ', '|', '  or '])
-        if t == 'and':
-            return rng.choice([' and ', ' & ', '&', ' and  '])
-        return rng.choice([' --> ', '-->', ' -->'])
-
-    def unit(f):
-        t = f[0]
-        if t in ('true', 'false'):
-            return t
-        if t == 'ap':
-            return f[1] if rng.random() < 0.85 else '"%s"' % f[1]
-        if t == 'not':
-            return sym('not') + unit(f[1])
-        if t in ('X', 'F', 'G'):
-            if logic == 'CTL':
-                raise ValueError('bare path formula in CTL text')
-            return t + ' ' + unit(f[1])
-        if t in ('A', 'E'):
-            if logic == 'CTL':
-                g = f[1]
-                if g[0] in 'XFG':
-                    return t + ' ' + g[0] + ' ' + unit(g[1])
-                return t + rng.choice(['', ' ']) + '(' + unit(g[1]) + ' ' + g[0] + ' ' + unit(g[2]) + ')'
-            return t + ' ' + unit(f[1])
-        if t in ('U', 'R'):
-            return '(' + unit(f[1]) + ' ' + t + ' ' + unit(f[2]) + ')'
-        return '(' + sym(t).join(unit(g) for g in f[1:]) + ')'
-    s = unit(f)
-    if f[0] in ('or', 'and', 'imp', 'U', 'R') and rng.random() < 0.5:
-        s = s[1:-1]                      # the outermost operator needs no parentheses
-    elif logic != 'LTL' and rng.random() < 0.15:
-        s = '(' + s + ')'
-    return s
-
-
 def star_text(f):
     """str(f) of the CTL* object: the library's own printed notation"""
     import pyModelChecking.CTLS as CTLS
@@ -99,15 +57,6 @@ def q_obj(logic, f):
 
 def q_x(logic, lang, f):
     return (logic, 'x:' + lang, f, None)
-
-
-_PARSERS = {}
-
-
-def shared_parser(logic):
-    if logic not in _PARSERS:
-        _PARSERS[logic] = lang_module(logic).Parser()
-    return _PARSERS[logic]
 
 
 def eval_query(kd, q):
@@ -151,26 +100,6 @@ def eval_chunk(chunk):
         K = kd_py(kd)
         out.append((kripke_sx(K), sorted(K.states()), [eval_query(kd, q) for q in qs]))
     return out
-
-
-def pmap_chunks(fn, items, jobs, per=6):
-    """ordered map of fn over chunks of items in a fork pool (deterministic: results are re-assembled in order)"""
-    chunks = [items[i:i + per] for i in range(0, len(items), per)]
-    if jobs <= 1 or len(chunks) < 2:
-        res = [fn(c) for c in chunks]
-    else:
-        import multiprocessing as mp
-        with mp.get_context('fork').Pool(jobs) as pool:
-            res = pool.map(fn, chunks, chunksize=1)
-    return [x for r in res for x in r]
-
-
-def n_jobs():
-    try:
-        n = len(os.sched_getaffinity(0))
-    except Exception:  # noqa
-        n = os.cpu_count() or 1
-    return max(1, min(12, n - 2))
 
 
 # ----------------------------------------------------------------------------------------
@@ -393,38 +322,24 @@ def laws_ctls(rng, f, g, p):
     return W
 
 
-FAMILIES = {'PL': laws_pl, 'CTL': laws_ctl, 'LTL': laws_ltl, 'A-over-CTL-path': laws_tri, 'CTLS': laws_ctls}
+def laws_stale(rng, f, g):
+    """K already carries labels spelled like the fresh names the CTL* elimination generates for quantified subformulas of f
+    ('[E(G(p))]', ...): CTL / LTL (which never look at such labels) and CTL* must still agree, and the Boolean laws must hold"""
+    W = Laws(rng, 'stale-fresh-looking-labels', (f, g))
+    if is_ctl_state(f):
+        W.eq('agree:CTL=CTLS', q_obj('CTL', f), q_obj('CTLS', f))
+        W.eq('cast:CTLS<-CTL', q_x('CTLS', 'CTL', f), q_obj('CTL', f))
+        W.texts('CTL', f)
+    if is_ltl_state(f):
+        W.eq('agree:LTL=CTLS', q_obj('LTL', f), q_obj('CTLS', f))
+        W.eq('cast:CTLS<-LTL', q_x('CTLS', 'LTL', f), q_obj('LTL', f))
+        W.eq('dual:A=notEnot:CTLS', q_obj('CTLS', f), q_obj('CTLS', N(('E', N(f[1])))))
+    W.texts('CTLS', f)
+    W.boolean('CTLS', lambda x: x, f, g, None)
+    return W
 
 
-def tcount(f):
-    """number of temporal operators of a formula tree"""
-    return sum(1 for x in subformulas(f) if x[0] in TEMPORAL)
-
-
-def relation_holds(rel, states, lhs, rhs):
-    """lhs, rhs answers ('ok', sorted list) ; the identity as sets within K.states()"""
-    if lhs[0] != 'ok' or any(r[0] != 'ok' for r in rhs):
-        return False
-    S = set(states)
-    a = set(lhs[1])
-    rs = [set(r[1]) for r in rhs]
-    if rel == 'eq':
-        return a == rs[0]
-    if rel == 'compl':
-        return a == S - rs[0]
-    if rel == 'inter':
-        b = set(S)
-        for r in rs:
-            b &= r
-        return a == b
-    if rel == 'union':
-        b = set()
-        for r in rs:
-            b |= r
-        return a == b
-    if rel == 'cunion':
-        return a == (S - rs[0]) | rs[1]
-    raise ValueError(rel)
+FAMILIES = {'stale-fresh-looking-labels': laws_stale, 'PL': laws_pl, 'CTL': laws_ctl, 'LTL': laws_ltl, 'A-over-CTL-path': laws_tri, 'CTLS': laws_ctls}
 
 
 # ----------------------------------------------------------------------------------------
@@ -454,6 +369,8 @@ def gen_cases(R):
 
     nemit = [0]
 
+    names_rng = random.Random(R.seed + 404)
+
     def emit(builder, args, kds):
         for kd in kds:
             nemit[0] += 1
@@ -461,7 +378,15 @@ def gen_cases(R):
                 # labels installed through replace_labelling_function with SHARED set objects (and an entry for a non-state):
                 # CTL* works on a clone that it labels, CTL / LTL do not - the three must still agree
                 kd = dict(kd, alias=1)
-            yield (kd, builder(rng, *args))
+            a = args
+            if nemit[0] % 4 == 1:
+                # multi-character atom names (digits, underscores, names beginning with an operator letter / reserved word) in the
+                # labels and in every formula of the instance: text = object and the agreement laws hold for every legal identifier
+                amap = dict(zip(('p', 'q'), names_rng.sample(ATOM_NAMES, 2)))
+                kd = rename_atoms_kd(kd, amap)
+                a = tuple(rename_atoms(x, amap) if isinstance(x, tuple) else x for x in args)
+                R.count('instances_with_multi_character_atom_names')
+            yield (kd, builder(rng, *a))
 
     pls = pl_pool()
     ctl1 = ctl_formulas_depth(1)
@@ -524,6 +449,19 @@ def gen_cases(R):
         while tcount(p) > 3:
             p = rand_path(rng, 2, quant=True)
         yield from emit(laws_ctls, (f, g, p), ks_for(1, 1, 4))
+
+    # --- structures already labelled with fresh-looking names '[E(G(p))]' (mccheck.stale_label_cases): agreement of CTL / LTL with CTL*
+    def stale_formula():
+        r = rng.random()
+        if r < 0.45:
+            return gen_until(rng, lambda: rand_ctl(rng, rng.randint(1, 2)), lambda x: any(y[0] in 'AE' for y in subformulas(x)))
+        if r < 0.8:
+            return ('A', gen_until(rng, lambda: rand_path(rng, rng.randint(1, 2)), lambda x: has_temporal(x) and tcount(x) <= 2))
+        return QO(rng.choice('AE'), rng.choice('FG'), rng.choice([P, QQ, N(P)])) if rng.random() < 0.5 else QO(rng.choice('AE'), rng.choice('UR'), rng.choice(LEAVES), rng.choice([P, QQ]))
+    for kd, f in stale_label_cases(rng, 1500 if th else 110, stale_formula):
+        qs = [x for x in subformulas(f) if x[0] in 'AE']
+        g = rng.choice([N(rng.choice(qs)), rng.choice(qs), P, rand_ctl(rng, 1)])
+        yield (kd, laws_stale(rng, f, g))
 
 
 # ----------------------------------------------------------------------------------------
@@ -681,7 +619,13 @@ def run(R):
               'Each law has both sides evaluated by the real modelcheck functions (native object, object of another language module that is cast, '
               'text str(f) in CTL* notation, hand-written concrete syntax with alternative symbols / quoted atoms / spacing, default and shared Parser) '
               'and every single answer is also compared with the proved model. non-trivial = the identity holds with a left-hand side that is '
-              'neither empty nor all states; distinct by (K, law, formulas)')
+              'neither empty nor all states; distinct by (K, law, formulas). One instance in four uses multi-character atom names (digits, underscores, '
+              'names beginning with an operator letter / reserved word) in labels, objects and texts. A family runs the agreement / Boolean laws on structures '
+              'that already carry labels spelled like the fresh names of the CTL* elimination. LIVE STRUCTURES (mccheck.run_live, mode ALL): sessions on ONE '
+              'Kripke object - queries interleaved with edits of its owner (labels add/discard, replace_labelling_function with set/frozenset/list/shared '
+              'containers, add_edge, new states) - with a pool of formula OBJECTS, each passed (the same object) to every checker it belongs to: equal sets, '
+              'complement / intersection / union between pool members, each answer equal to the model on the structure as it is at the time of the call, '
+              'formula objects keep their trees, returned sets are cleared / polluted by the caller after being recorded')
     gen = gen_cases(R)
     fams, structs = {}, {'small(<=2 states)': 0, 'random(3..6 states)': 0}
     bad_answers, bad_laws, texts = [], [], {}
@@ -703,11 +647,16 @@ def run(R):
     R.cov['cpu_s'] = round(tms.user + tms.system + tms.children_user + tms.children_system, 1)
     report(R, bad_answers, bad_laws)
     text_internal_agreement(R, texts)
+    # live structures: ONE Kripke object queried, edited by its owner, queried again, with a pool of formula OBJECTS each of which goes
+    # through EVERY checker it belongs to (same object): agreement, complement / intersection / union on the structure as it is now
+    run_live(R, 'ALL', 3000 if R.thorough else 260)
     R.exhaustive = False
 
 
 def replay(R, data):
     d = data['data']
+    if d.get('stream') == 'live structures':
+        return replay_session(R, d)
     kd = kd_from_json(d['kripke'])
     K = kd_py(kd)
     ks, states = kripke_sx(K), sorted(K.states())
